@@ -810,6 +810,12 @@ func histMonitor(run *histRun) []hviol {
 					if rs[0].Class() == 2 {
 						add("C03:recipient-limit", "%s: recipient %d accepted with MaxRecipients=%d", name, st.rcpts+1, h.MaxRcpt)
 					}
+					// the backend's own count: a Rcpt call it answered with nil is a recipient it holds
+					for _, e := range es {
+						if e.Kind == "Rcpt" && e.Ph == "e" && e.Err == "" {
+							add("C03:recipient-limit:backend-holds-more", "%s: the backend was asked for, and accepted, recipient %d with MaxRecipients=%d (the client was told %s)", name, st.rcpts+1, h.MaxRcpt, codes(rs))
+						}
+					}
 				case c.Reject:
 					if rs[0].Class() == 2 {
 						add("C04:attribution:rcpt", "%s: backend rejected the recipient but the reply is %s", name, rs[0])
